@@ -27,6 +27,7 @@ KnownBad(class, stage) ==
   \/ class = "param/alias+default" /\ stage = "typecheck" /\ "codegen.param_alias_default" \in Deviations
   \/ class = "error/api-level-user-type" /\ stage = "typecheck" /\ "codegen.api_error_user_type" \in Deviations
   \/ class = "views/recursive-result-type" /\ stage = "typecheck" /\ "codegen.recursive_result_type_views" \in Deviations
+  \/ class = "payload/whole-in-header" /\ stage = "typecheck" /\ "codegen.primitive_payload_in_header" \in Deviations
 
 VARIABLES class,     \* class of the program under way
           stage,     \* index into Stages of the next stage to run (6 = finished)
